@@ -4,7 +4,7 @@ import AfkakProofs.Producer.Truth
 import AfkakProofs.Producer.RelStep
 import AfkakProofs.Producer.ExactlyOnce
 import AfkakProofs.Producer.Acks0
-import AfkakProps.Open.C01
+import AfkakProofs.Producer.Order
 /-!
 # C01 — Producer acknowledgements are truthful and fire exactly once
 Property theorems only.  Model: `Afkak/Producer.lean` (the Producer against the client interface);
@@ -125,6 +125,14 @@ theorem C01_run_fires_nodup (cfg : Cfg) (evs : List Ev) : (firedSids (run cfg (S
 theorem C01_acks0_succeeds (cfg : Cfg) (evs : List Ev) : acks0 cfg (traceOf cfg evs) = true :=
   acks0_model cfg evs
 
+/-- Payload integrity — trace level, for EVERY event list: every produce request has at least one payload,
+    at most one per topic/partition; every payload is made of WHOLE sends (a payload is a list of send
+    ids: its messages are the concatenation of those sends' messages, each send's key with it), at least
+    one; no send is in two payloads of a request; and every send in a payload is a send that was really
+    made (`send_messages` was called with that id) FOR THAT PAYLOAD'S TOPIC. -/
+theorem C01_payload_integrity (cfg : Cfg) (evs : List Ev) : payloads cfg (traceOf cfg evs) = true :=
+  payloads_model cfg evs
+
 /-! Non-vacuity: a run in which Deferreds do fire (an acknowledged send, a cancelled one). -/
 def exCfg : Cfg := Cfg.ofArgs 1 3 (1/4) false 1 1 none false
 def exEvs : List Ev :=
@@ -145,7 +153,7 @@ C01_fires_exactly_once
 C01_fires_exactly_once_run
 C01_run_fires_nodup
 C01_acks0_succeeds
+C01_payload_integrity
 -/
 /- OPEN_STATEMENTS
-C01_payload_integrity
 -/
